@@ -730,12 +730,45 @@ def c19(tier):
     return out
 
 
+RESET_H = ['W', 'WT', 'X', 'XT', 'x', 'NET', 'NIGG', 'NGET', 'kh', 'khT', 'a', 'b', 'c', 'cT', 'L', 'M', 'MM', 'C', 'CT', 'NS', 'WXkhNE']
+RESET_P = ['TTTT', 'uvTT', 'dqwT', 'YyNY', 'hTTTg', 'lcrT', 'emeT', 'NGTT', 'cTTTT', 'NYGT']
+
+
+def reset_inst(h, p, rst=130, vals=(2, 2, 2, 2, 2, 2, 2, 2), hb0=0, api=False):
+    defs = dict(NODE_DEFS)
+    defs.update({'HSEQ': '"%s"' % h, 'PSEQ': '"%s"' % p, 'RST': rst, 'HB0': hb0, 'VALS': '{' + ','.join(str(v) for v in vals) + '}',
+                 'CO_VERIF_SDO_BUF_SEG': 2, 'CO_TPDO_N': 1, 'OD_TMR_N': 6, 'OD_DOM_SIZE': 16})
+    if api:
+        defs['RSTAPI'] = None
+    uw = node_unwind(2)
+    uw.update(lss_unwind())
+    uw.update({'COTmrDelete': 7, 'COTmrInsert': 7, 'COTmrRemove': 8, 'COTmrProcess': 7, 'COTmrReset': 7, 'CoVerifTmrPool': 7, 'COTmrClear': 4,
+               'COSyncInit': 4, 'COSyncHandler': 4, 'COSyncUpdate': 4, 'COSyncRx': 9, 'COTPdoGetMap': 10, 'COTPdoTx': 10, 'CORPdoReset': 10, 'CORPdoGetMap': 10,
+               'CORPdoCheck': 4, 'COEmcyReset': 6, 'COEmcySend': 7, 'COTEmcyHistInit': 5, 'COEmcyHistReset': 5, 'CONmtModeDecode': 7,
+               'COTNmtHbConsInit': 4, 'CONmtHbConsActivate': 4, 'CONmtHbConsCheck': 4, 'CONmtLastHbState': 4, 'CONmtGetHbEvents': 4,
+               'COCSdoInit': 3, 'COCSdoCheck': 3, 'COCSdoUploadExpedited': 6, 'COLssInit': 6, 'free_actions': 8, 'probe': 9})
+    return Inst('reset_%s_%s_%s_r%d%s%s' % (h, p, ''.join(str(v) for v in vals[:len(h)]), rst, ('_h%d' % hb0) if hb0 else '', '_api' if api else ''), 'reset_equiv.c', defs,
+                unwind=20, unwindset=uw, objbits=10, tmr_cbs=['app_cb'], csdo_cbs=['cb'],
+                harness_only=['HSEQ', 'PSEQ', 'RST', 'HB0', 'VALS', 'RSTAPI'], family='reset_equiv',
+                bounds='history %s (times %s), initial 1017h %d ms, NMT reset %d%s, probes %s; heartbeat state, payloads, mapped value symbolic' % (
+                    h, list(vals[:len(h)]), hb0, rst, ' through the API' if api else '', p))
+
+
+def c20(tier):
+    out = []
+    for h in RESET_H:
+        for p in RESET_P:
+            out.append(reset_inst(h, p))
+    return out
+
+
 def c01(tier):
     return sdo_step_insts(tier) + sdo_two_servers(tier)
 
 
 PROPS = {
     'C01': c01,
+    'C20': c20,
     'C19': c19,
     'C17': c17,
     'C12': c12,
